@@ -1,6 +1,84 @@
-(* Lemmas about the model of maps.Set (Sets/MapSet.v). *)
+(* Lemmas about the shared loop machinery (Sets/Iface.v) and about the model
+   of maps.Set (Sets/MapSet.v). std++ style. *)
 From Typ Require Import Sets.MapSet.
+From stdpp Require Import gmap list.
 Local Open Scope Z_scope.
+
+(* ---- visit orders ---- *)
+
+(* what Go promises about the iteration of a map with key set X *)
+Definition covers (X : gset Z) (order : list Z) : Prop :=
+  NoDup order ∧ ∀ v, v ∈ X → v ∈ order.
+
+(* the members of X in the order in which [order] lists them *)
+Definition visit (X : gset Z) (order : list Z) : list Z := filter (λ v, v ∈ X) order.
+
+Lemma ms_iter_visit s order : ms_iter s order = visit s order.
+Proof. reflexivity. Qed.
+
+Lemma visit_NoDup X order : NoDup order → NoDup (visit X order).
+Proof. apply NoDup_filter. Qed.
+
+Lemma elem_of_visit X order v : covers X order → v ∈ visit X order ↔ v ∈ X.
+Proof.
+  intros [_ Hc]. unfold visit. rewrite elem_of_list_filter. naive_solver.
+Qed.
+
+Lemma visit_set X order : covers X order → list_to_set (visit X order) = X.
+Proof.
+  intros Hc. apply set_eq. intros v. rewrite elem_of_list_to_set. by apply elem_of_visit.
+Qed.
+
+Lemma visit_perm X order : covers X order → visit X order ≡ₚ elements X.
+Proof.
+  intros Hc. apply NoDup_Permutation.
+  - apply visit_NoDup, Hc.
+  - apply NoDup_elements.
+  - intros v. rewrite elem_of_elements. by apply elem_of_visit.
+Qed.
+
+Lemma visit_length X order : covers X order → length (visit X order) = size X.
+Proof. intros Hc. unfold size, set_size. cbn. by rewrite (visit_perm X order Hc). Qed.
+
+Lemma covers_elements X : covers X (elements X).
+Proof. split; [apply NoDup_elements|]. intros v. by rewrite elem_of_elements. Qed.
+
+Lemma covers_perm X order : order ≡ₚ elements X → covers X order.
+Proof.
+  intros Hp. split.
+  - rewrite Hp. apply NoDup_elements.
+  - intros v Hv. rewrite Hp. by apply elem_of_elements.
+Qed.
+
+(* ---- range_cb ---- *)
+
+Lemma range_cb_true {A} (f : A → Z → A * bool) acc vs :
+  (∀ a v, (f a v).2 = true) →
+  range_cb f acc vs = fold_left (λ a v, (f a v).1) vs acc.
+Proof.
+  intros Hf. revert acc. induction vs as [|v vs IH]; intros acc; [done|].
+  cbn. specialize (Hf acc v). destruct (f acc v) as [acc' c]. cbn in *. subst c. apply IH.
+Qed.
+
+(* two callbacks that step in lockstep *)
+Lemma range_cb_sim {A B} (R : A → B → Prop) (f : A → Z → A * bool) (g : B → Z → B * bool) vs :
+  (∀ a b v, R a b → R (f a v).1 (g b v).1 ∧ (f a v).2 = (g b v).2) →
+  ∀ a b, R a b → R (range_cb f a vs) (range_cb g b vs).
+Proof.
+  intros Hs. induction vs as [|v vs IH]; intros a b HR; [done|].
+  cbn. destruct (Hs a b v HR) as [H1 H2].
+  destruct (f a v) as [a' c], (g b v) as [b' c']. cbn in *. subst c'.
+  destruct c; [by apply IH|done].
+Qed.
+
+(* the user callback of the history interpreter stops at its j-th call *)
+Definition take_stop (j : nat) (vs : list Z) : list Z :=
+  match j with O => vs | _ => take j vs end.
+
+(* ---- Has / Add / Remove ---- *)
+
+Lemma ms_Has_spec (s : mapset) v : ms_Has s v = bool_decide (v ∈ s).
+Proof. reflexivity. Qed.
 
 Lemma ms_Add_spec (s : mapset) v :
   (ms_Add s v).1 = {[v]} ∪ s ∧ (ms_Add s v).2 = bool_decide (v ∉ s).
@@ -9,3 +87,235 @@ Proof.
   - rewrite bool_decide_true by done. cbn. split; [set_solver|]. by rewrite bool_decide_false by (intros ?; contradiction).
   - rewrite bool_decide_false by done. cbn. split; [done|]. by rewrite bool_decide_true.
 Qed.
+
+Lemma ms_Remove_spec (s : mapset) v :
+  (ms_Remove s v).1 = s ∖ {[v]} ∧ (ms_Remove s v).2 = bool_decide (v ∈ s).
+Proof.
+  unfold ms_Remove, ms_Has. destruct (decide (v ∈ s)) as [Hin|Hni].
+  - rewrite bool_decide_true by done. cbn. done.
+  - rewrite bool_decide_false by done. cbn. split; [set_solver|done].
+Qed.
+
+(* ---- the loops, at the level of the visited list ---- *)
+
+Lemma add_all_spec vs (s : mapset) :
+  fold_left (λ set v, (ms_Add set v).1) vs s = s ∪ list_to_set vs.
+Proof.
+  revert s. induction vs as [|v vs IH]; intros s; cbn.
+  - set_solver.
+  - rewrite IH. rewrite (proj1 (ms_Add_spec s v)). set_solver.
+Qed.
+
+Lemma AddSet_cb_spec vs (s : mapset) n : NoDup vs →
+  range_cb ms_AddSet_cb (s, n) vs = (s ∪ list_to_set vs, n + Z.of_nat (size (list_to_set vs ∖ s : gset Z))).
+Proof.
+  intros Hnd. revert s n. induction Hnd as [|v vs Hv Hnd IH]; intros s n; cbn [range_cb].
+  - cbn. f_equal; [set_solver|]. replace (∅ ∖ s) with (∅ : gset Z) by set_solver. rewrite size_empty. lia.
+  - unfold ms_AddSet_cb at 1. destruct (ms_Add_spec s v) as [E1 E2].
+    destruct (ms_Add s v) as [s' b]. cbn in E1, E2. subst s' b.
+    rewrite IH. cbn [list_to_set]. f_equal; [set_solver|].
+    destruct (decide (v ∈ s)) as [Hin|Hni].
+    + rewrite bool_decide_false by (intros ?; contradiction).
+      f_equal. f_equal. f_equal. set_solver.
+    + rewrite bool_decide_true by done.
+      replace (({[v]} ∪ list_to_set vs) ∖ s) with ({[v]} ∪ (list_to_set vs ∖ ({[v]} ∪ s)) : gset Z).
+      2:{ apply set_eq. intros x. rewrite !elem_of_union, !elem_of_difference, !elem_of_union, !elem_of_singleton.
+          split; [intros [->|[? ?]]|intros [[->|?] ?]]; try tauto.
+          destruct (decide (x = v)); tauto. }
+      rewrite (size_union ({[v]} : gset Z) (list_to_set vs ∖ ({[v]} ∪ s))) by set_solver. rewrite size_singleton. lia.
+Qed.
+
+Lemma RemoveSet_cb_spec vs (s : mapset) n : NoDup vs →
+  range_cb ms_RemoveSet_cb (s, n) vs = (s ∖ list_to_set vs, n + Z.of_nat (size (s ∩ list_to_set vs : gset Z))).
+Proof.
+  intros Hnd. revert s n. induction Hnd as [|v vs Hv Hnd IH]; intros s n; cbn [range_cb].
+  - cbn. f_equal; [set_solver|]. replace (s ∩ ∅) with (∅ : gset Z) by set_solver. rewrite size_empty. lia.
+  - unfold ms_RemoveSet_cb at 1. destruct (ms_Remove_spec s v) as [E1 E2].
+    destruct (ms_Remove s v) as [s' b]. cbn in E1, E2. subst s' b.
+    rewrite IH. cbn [list_to_set]. f_equal; [set_solver|].
+    assert (Hv' : v ∉ (list_to_set vs : gset Z)) by (by rewrite elem_of_list_to_set).
+    destruct (decide (v ∈ s)) as [Hin|Hni].
+    + rewrite bool_decide_true by done.
+      replace (s ∩ ({[v]} ∪ list_to_set vs)) with ({[v]} ∪ ((s ∖ {[v]}) ∩ list_to_set vs) : gset Z).
+      2:{ apply set_eq. intros x. rewrite !elem_of_union, !elem_of_intersection, !elem_of_difference, !elem_of_union, !elem_of_singleton.
+          split; [intros [->|[[? ?] ?]]|intros [? [->|?]]]; try tauto.
+          destruct (decide (x = v)); [subst; tauto|tauto]. }
+      rewrite (size_union ({[v]} : gset Z) ((s ∖ {[v]}) ∩ list_to_set vs)) by set_solver. rewrite size_singleton. lia.
+    + rewrite bool_decide_false by done.
+      f_equal. f_equal. f_equal. set_solver.
+Qed.
+
+(* ---- observers and constructors ---- *)
+
+Lemma ms_Len_spec (s : mapset) : ms_Len s = Z.of_nat (size s).
+Proof. reflexivity. Qed.
+
+Lemma snoc_all_spec (vs acc : list Z) : fold_left (λ result v, result ++ [v]) vs acc = acc ++ vs.
+Proof.
+  revert acc. induction vs as [|v vs IH]; intros acc; cbn.
+  - by rewrite app_nil_r.
+  - rewrite IH. by rewrite <-app_assoc.
+Qed.
+
+Lemma ms_Slice_spec (s : mapset) order : ms_Slice s order = visit s order.
+Proof. unfold ms_Slice. by rewrite snoc_all_spec. Qed.
+
+(* the text of String for a visit sequence *)
+Fixpoint toks_tail (vs : list Z) : list tok :=
+  match vs with [] => [] | v :: vs' => TSpace :: TVal v :: toks_tail vs' end.
+Definition toks_of (vs : list Z) : list tok :=
+  TOpen :: match vs with [] => [] | v :: vs' => TVal v :: toks_tail vs' end ++ [TClose].
+
+Lemma string_body_tail vs sb :
+  fold_left string_body vs (sb, true) = (sb ++ toks_tail vs, true).
+Proof.
+  revert sb. induction vs as [|v vs IH]; intros sb; cbn.
+  - by rewrite app_nil_r.
+  - rewrite IH. f_equal. rewrite <-!app_assoc. done.
+Qed.
+
+Lemma string_body_spec vs :
+  (fold_left string_body vs ([TOpen], false)).1 ++ [TClose] = toks_of vs.
+Proof.
+  destruct vs as [|v vs]; [done|]. cbn. rewrite string_body_tail. cbn. done.
+Qed.
+
+Lemma ms_String_spec (s : mapset) order : ms_String s order = toks_of (visit s order).
+Proof.
+  unfold ms_String. rewrite <-string_body_spec, ms_iter_visit.
+  by destruct (fold_left string_body (visit s order) ([TOpen], false)).
+Qed.
+
+Lemma ms_Clone_spec (s : mapset) order : covers s order → ms_Clone s order = s.
+Proof.
+  intros Hc. unfold ms_Clone. rewrite add_all_spec, ms_iter_visit, visit_set by done. set_solver.
+Qed.
+
+Lemma ms_NewSetFromSlice_spec l : ms_NewSetFromSlice l = list_to_set l.
+Proof. unfold ms_NewSetFromSlice. rewrite add_all_spec. set_solver. Qed.
+
+Lemma add_all_map {B} (g : B → Z) (m : list B) (s : mapset) :
+  fold_left (λ set kv, (ms_Add set (g kv)).1) m s = fold_left (λ set v, (ms_Add set v).1) (map g m) s.
+Proof. revert s. induction m as [|x m IH]; intros s; cbn; [done|apply IH]. Qed.
+
+Lemma ms_NewSetFromKeys_spec m : ms_NewSetFromKeys m = list_to_set (map fst m).
+Proof. unfold ms_NewSetFromKeys. rewrite (add_all_map fst), add_all_spec. set_solver. Qed.
+
+Lemma ms_NewSetFromValues_spec m : ms_NewSetFromValues m = list_to_set (map snd m).
+Proof. unfold ms_NewSetFromValues. rewrite (add_all_map snd), add_all_spec. set_solver. Qed.
+
+(* ---- what a well-behaved sets.Set argument does ---- *)
+
+Record iface_ok {T} (I : set_iface T) (wfT : T → Prop) (absT : T → gset Z) : Prop := {
+  ok_Has t v : wfT t →
+    wfT (if_Has I t v).1 ∧ absT (if_Has I t v).1 = absT t ∧ (if_Has I t v).2 = bool_decide (v ∈ absT t);
+  ok_Range A t order (f : A → Z → A * bool) acc : wfT t →
+    wfT (if_Range I t order f acc).1 ∧ absT (if_Range I t order f acc).1 = absT t ∧
+    (if_Range I t order f acc).2 = range_cb f acc (visit (absT t) order)
+}.
+
+Lemma SymDiff_cb_spec (s : mapset) vs (result : mapset) :
+  range_cb (ms_SymDiff_cb s) result vs = result ∪ (list_to_set vs ∖ s).
+Proof.
+  revert result. induction vs as [|v vs IH]; intros result; cbn [range_cb].
+  - cbn. set_solver.
+  - unfold ms_SymDiff_cb at 1. unfold ms_Has. case_bool_decide as Hin; cbn [negb].
+    + rewrite IH. cbn. set_solver.
+    + rewrite IH. rewrite (proj1 (ms_Add_spec result v)). cbn. set_solver.
+Qed.
+
+Section with_iface.
+  Context {T} (I : set_iface T) (wfT : T → Prop) (absT : T → gset Z) (HI : iface_ok I wfT absT).
+
+  Lemma ms_AddSet_spec (s : mapset) set oset : wfT set → covers (absT set) oset →
+    let r := ms_AddSet I s set oset in
+    wfT r.1.1 ∧ absT r.1.1 = absT set ∧ r.1.2 = s ∪ absT set ∧ r.2 = Z.of_nat (size (absT set ∖ s)).
+  Proof.
+    intros Hwf Hc. unfold ms_AddSet.
+    destruct (ok_Range _ _ _ HI _ set oset ms_AddSet_cb (s, 0) Hwf) as (H1 & H2 & H3).
+    destruct (if_Range I set oset ms_AddSet_cb (s, 0)) as [set' [s' added]]. cbn in *.
+    rewrite AddSet_cb_spec in H3 by (apply visit_NoDup, Hc). rewrite visit_set in H3 by done.
+    injection H3 as -> ->. done.
+  Qed.
+
+  Lemma ms_RemoveSet_spec (s : mapset) set oset : wfT set → covers (absT set) oset →
+    let r := ms_RemoveSet I s set oset in
+    wfT r.1.1 ∧ absT r.1.1 = absT set ∧ r.1.2 = s ∖ absT set ∧ r.2 = Z.of_nat (size (s ∩ absT set)).
+  Proof.
+    intros Hwf Hc. unfold ms_RemoveSet.
+    destruct (ok_Range _ _ _ HI _ set oset ms_RemoveSet_cb (s, 0) Hwf) as (H1 & H2 & H3).
+    destruct (if_Range I set oset ms_RemoveSet_cb (s, 0)) as [set' [s' removed]]. cbn in *.
+    rewrite RemoveSet_cb_spec in H3 by (apply visit_NoDup, Hc). rewrite visit_set in H3 by done.
+    injection H3 as -> ->. done.
+  Qed.
+
+  (* the loop of Intersect / SetDiff over a visit sequence *)
+  Lemma Intersect_body_spec vs other (acc : mapset) : wfT other →
+    let r := fold_left (ms_Intersect_body I) vs (other, acc) in
+    wfT r.1 ∧ absT r.1 = absT other ∧ r.2 = acc ∪ (list_to_set vs ∩ absT other).
+  Proof.
+    revert other acc. induction vs as [|v vs IH]; intros other acc Hwf; cbn.
+    - split; [done|]. split; [done|]. set_solver.
+    - destruct (ok_Has _ _ _ HI other v Hwf) as (H1 & H2 & H3).
+      destruct (if_Has I other v) as [other' h]. cbn in H1, H2, H3. subst h.
+      destruct (IH other' (if bool_decide (v ∈ absT other) then (ms_Add acc v).1 else acc) H1) as (G1 & G2 & G3).
+      case_bool_decide as Hin; cbn; (split; [done|]; split; [congruence|]); rewrite G3, H2.
+      + rewrite (proj1 (ms_Add_spec acc v)). set_solver.
+      + set_solver.
+  Qed.
+
+  Lemma SetDiff_body_spec vs other (acc : mapset) : wfT other →
+    let r := fold_left (ms_SetDiff_body I) vs (other, acc) in
+    wfT r.1 ∧ absT r.1 = absT other ∧ r.2 = acc ∪ (list_to_set vs ∖ absT other).
+  Proof.
+    revert other acc. induction vs as [|v vs IH]; intros other acc Hwf; cbn.
+    - split; [done|]. split; [done|]. set_solver.
+    - destruct (ok_Has _ _ _ HI other v Hwf) as (H1 & H2 & H3).
+      destruct (if_Has I other v) as [other' h]. cbn in H1, H2, H3. subst h.
+      destruct (decide (v ∈ absT other)) as [Hin|Hni];
+        [rewrite bool_decide_true by done|rewrite bool_decide_false by done]; cbn [negb].
+      + destruct (IH other' acc H1) as (G1 & G2 & G3).
+        split; [done|]. split; [congruence|]. rewrite G3, H2. set_solver.
+      + destruct (IH other' (ms_Add acc v).1 H1) as (G1 & G2 & G3).
+        split; [done|]. split; [congruence|]. rewrite G3, H2.
+        rewrite (proj1 (ms_Add_spec acc v)). set_solver.
+  Qed.
+
+  Lemma ms_Intersect_spec (s : mapset) other os : wfT other → covers s os →
+    let r := ms_Intersect I s other os in
+    wfT r.1 ∧ absT r.1 = absT other ∧ r.2 = s ∩ absT other.
+  Proof.
+    intros Hwf Hc. unfold ms_Intersect. rewrite ms_iter_visit.
+    destruct (Intersect_body_spec (visit s os) other ∅ Hwf) as (H1 & H2 & H3).
+    split; [done|]. split; [done|]. rewrite H3, visit_set by done. set_solver.
+  Qed.
+
+  Lemma ms_SetDiff_spec (s : mapset) other os : wfT other → covers s os →
+    let r := ms_SetDiff I s other os in
+    wfT r.1 ∧ absT r.1 = absT other ∧ r.2 = s ∖ absT other.
+  Proof.
+    intros Hwf Hc. unfold ms_SetDiff. rewrite ms_iter_visit.
+    destruct (SetDiff_body_spec (visit s os) other ∅ Hwf) as (H1 & H2 & H3).
+    split; [done|]. split; [done|]. rewrite H3, visit_set by done. set_solver.
+  Qed.
+
+  Lemma ms_Union_spec (s : mapset) other os oother : wfT other → covers s os → covers (absT other) oother →
+    let r := ms_Union I s other os oother in
+    wfT r.1 ∧ absT r.1 = absT other ∧ r.2 = s ∪ absT other.
+  Proof.
+    intros Hwf Hcs Hco. unfold ms_Union. rewrite ms_Clone_spec by done.
+    destruct (ms_AddSet_spec s other oother Hwf Hco) as (H1 & H2 & H3 & _).
+    destruct (ms_AddSet I s other oother) as [[other' result'] n]. done.
+  Qed.
+
+  Lemma ms_SymDiff_spec (s : mapset) other os oother : wfT other → covers s os → covers (absT other) oother →
+    let r := ms_SymDiff I s other os oother in
+    wfT r.1 ∧ absT r.1 = absT other ∧ r.2 = (s ∖ absT other) ∪ (absT other ∖ s).
+  Proof.
+    intros Hwf Hcs Hco. unfold ms_SymDiff.
+    destruct (ms_SetDiff_spec s other os Hwf Hcs) as (H1 & H2 & H3).
+    destruct (ms_SetDiff I s other os) as [other1 result]. cbn in H1, H2, H3.
+    destruct (ok_Range _ _ _ HI _ other1 oother (ms_SymDiff_cb s) result H1) as (G1 & G2 & G3).
+    split; [done|]. split; [congruence|]. rewrite G3, SymDiff_cb_spec, H2, visit_set, H3 by done. done.
+  Qed.
+End with_iface.
